@@ -28,6 +28,7 @@ CONSTANTS
   Axes,         \* set of axis values tried
   Targets,      \* set of pad targets
   CombNs,       \* set of n for combinations
+  SortArgs,     \* set of [asc, stable, arg] records applied by the Sort action
   ReduceArgs,   \* set of [r, mask, kd] records applied by the Reduce action
   EmitOn        \* BOOLEAN: export transitions as JSON cases
 
@@ -197,7 +198,13 @@ SameValueOp ==
                "toIndexedOptionArray64", "toByteMaskedArray", "deep_copy"} :
        Case("samevalue", [o |-> o], Ok(V))
 
-Operate == ConcatOp \/ SameValueOp \/ ReduceOp \/ Validity \/ ToListOp \/ SliceOp \/ NumOp \/ LocalIndexOp \/ FlattenOp \/ PadOp \/ CombOp
+SortOp ==
+  /\ OpReady("sort")
+  /\ \E a \in SortArgs : \E ax \in Axes :
+       Case(IF a.arg = 1 THEN "argsort" ELSE "sort", [axis |-> ax, asc |-> a.asc, stable |-> a.stable],
+            VSort(V, T, ax, a.asc, a.arg))
+
+Operate == SortOp \/ ConcatOp \/ SameValueOp \/ ReduceOp \/ Validity \/ ToListOp \/ SliceOp \/ NumOp \/ LocalIndexOp \/ FlattenOp \/ PadOp \/ CombOp
 
 Next == Build \/ Operate
 Spec == Init /\ [][Next]_vars
